@@ -98,7 +98,8 @@ def removeLruN (w : W κ ν) : Nat → W κ ν
     (`.done` = that iteration completed; the entry it returned is dropped by the loop) -/
 def purge (w : W κ ν) (j : Nat) (site : RemoveSite) : W κ ν := removeLru (removeLruN w j) site
 
-/-- `resize(n)`: `while map.len() > n { remove_lru(); }`, `map.shrink_to_fit()` (re-hashes every remaining key: user
+/-- `resize(n)`: `while map.len() > n { if remove_lru().is_none() { break } }` (an iteration that finds no index entry
+    for the LRU key changes nothing, and neither do the ones the model still applies after it), `map.shrink_to_fit()` (re-hashes every remaining key: user
     code again), and only then `self.cap = n`. `fin = true`: ran to completion. Otherwise aborted in iteration `j+1` at
     `site`, or — all iterations done — inside the re-hash: the capacity is still the old one. -/
 def resize (w : W κ ν) (n : Nat) (j : Nat) (site : RemoveSite) (fin : Bool) : W κ ν :=
